@@ -98,6 +98,20 @@ def main():
             meta = json.load(open(mp))
             for prop in sorted(set([meta["property"]] + meta.get("detected_by", []))):
                 ms.append({"name": "seeded-" + d, "prop": prop, "kind": "seeded", "expect": "", "patch": os.path.join(sd, d, "patch.diff")})
+    # independently produced behaviour-preserving refactors (see /verif/benign/*/meta.json): each must
+    # leave every check silent.  Without --prop each is run once against all checks.
+    bd = os.path.join(VERIF, "benign")
+    if os.path.isdir(bd):
+        for d in sorted(os.listdir(bd)):
+            mp = os.path.join(bd, d, "meta.json")
+            if not os.path.exists(mp):
+                continue
+            meta = json.load(open(mp))
+            if a.prop:
+                for prop in meta.get("props", []):
+                    ms.append({"name": "refactor-" + d, "prop": prop, "kind": "benign", "patch": os.path.join(bd, d, "patch.diff")})
+            else:
+                ms.append({"name": "refactor-" + d, "prop": "all", "kind": "benign", "patch": os.path.join(bd, d, "patch.diff")})
     if a.prop:
         ms = [m for m in ms if m["prop"] in a.prop.split(",")]
     if a.name:
